@@ -303,7 +303,7 @@ class Magnet():
         # https://stackoverflow.com/a/1019588
         for url in self.tr:
             if url.scheme in ('http', 'https'):
-                infohash_enc = urllib.parse.quote_from_bytes(binascii.unhexlify(self.infohash))
+                infohash_enc = urllib.parse.quote_from_bytes(binascii.unhexlify(self._infohash_as_base16()))
                 torrent_urls.append(f'{url.scheme}://{url.netloc}/file?info_hash={infohash_enc}')
 
         start = time.monotonic()
@@ -332,7 +332,7 @@ class Magnet():
             if callback:
                 callback(e)
         else:
-            if validate and self.infohash != torrent.infohash:
+            if validate and self._infohash_as_base16() != torrent.infohash:
                 raise error.MetainfoError(f'Mismatching info hashes: {self.infohash} != {torrent.infohash}')
             elif torrent.metainfo['info']:
                 self._info = torrent.metainfo['info']
